@@ -32,7 +32,8 @@ unsigned q_head_reads; stamp_t q_head_val;
 static stamp_t q_head_stamp(void) { q_head_reads++; q_head_val = nondet_size(); return q_head_val; }
 #define Q_head_stamp(q) q_head_stamp()
 unsigned q_tail_reads; stamp_t q_tail_max;      /* tail stamp: monotone */
-static stamp_t q_tail_stamp(void) { stamp_t v = nondet_size(); XV_ASSUME(v >= q_tail_max); q_tail_max = v; q_tail_reads++; return v; }
+size_t in_tail, in_s0, in_s1, in_s2, in_s3, in_s4, in_s5; unsigned in_g0, in_g1, in_g2;   /* inputs for the native replay */
+static stamp_t q_tail_stamp(void) { stamp_t v = nondet_size(); XV_ASSUME(v >= q_tail_max); q_tail_max = v; q_tail_reads++; if (q_tail_reads == 1) in_tail = v; return v; }
 #define Q_tail_stamp(q) q_tail_stamp()
 struct node* q_global_head; unsigned q_steal_n;
 static struct node* q_steal_global(void) { struct node* r = q_global_head; q_global_head = 0; q_steal_n++; return r; }
@@ -47,15 +48,15 @@ static void q_add1(struct node* chunk) { q_add2(chunk, chunk); }  /* :168 */
 #define Q_add_global(q, ...) XV_PICK2(__VA_ARGS__, q_add2, q_add1)(__VA_ARGS__)
 
 /* delete_self(): count, check the stamp against the tail stamps read so far, then poison the node */
-/* freed or never-initialised memory: every such pointer leads to the poison node (next/next_chunk point to itself, arbitrary stamp);
+/* freed or never-initialised memory: every such pointer leads to the poison node (a list end with an arbitrary stamp);
  * deleting it or finding it in a list is a violation.  (Arbitrary integers cast to pointers would say the same but make symbolic execution explode.) */
-struct node poison; _Bool del_bad_stamp, del_poison;
+struct node poison; _Bool del_bad_stamp, del_poison; unsigned del_count, del_at_restart;
 static struct node* junk(void) { return nondet_bool() ? &poison : 0; }
 static void n_delete_self(struct node* n) {
   if (n == &poison) { del_poison = 1; return; }
   if (!(q_tail_reads >= 1 && n->stamp <= q_tail_max)) del_bad_stamp = 1;
-  n->deleted++;
-  n->next = &poison; n->next_chunk = &poison; n->stamp = nondet_size();
+  n->deleted++; del_count++;
+  n->next = &poison; n->next_chunk = &poison; n->stamp = nondet_size();   /* freed: whoever reads these fields lands on the poison node */
 }
 #define N_delete_self(x) n_delete_self(&(x))
 
@@ -112,15 +113,17 @@ void xv_env(void) { if (mon_p) *mon_p = nondet_uptr(); }      /* other threads s
 /* hooks of the restart-loop cut (definitions of the helpers further down) */
 static _Bool j_conserved(struct node* head, struct node* last); static _Bool td_list_empty(void);
 static void havoc_heap(void); static struct node* build_chain(void); static void pick_j(void);
-extern unsigned g_n[3]; extern _Bool restart_seen;
+extern unsigned g_n[3]; extern _Bool restart_seen; extern size_t in_tail;
 #define XV_INV_RESTART (cur_chunk != 0 && j_conserved(cur_chunk, 0) && q_tail_reads >= 1 && tail_stamp <= q_tail_max && !del_bad_stamp && !del_poison \
                         && q_add_n == 0 && !q_add_bad && td_list_empty() && q_steal_n == 1)
 #define XV_RESTART_ENTRY() do { if (!restart_seen) { restart_seen = 1; \
     __CPROVER_assert(XV_INV_RESTART, "LOOPBASE:RESTART"); \
     havoc_heap(); XV_ASSUME(g_n[0] + g_n[1] + g_n[2] > 0); cur_chunk = build_chain(); pick_j(); \
-    tail_stamp = nondet_size(); q_tail_max = nondet_size(); q_tail_reads = nondet_uint(); \
-    __CPROVER_assume(XV_INV_RESTART); } } while (0)
-#define XV_RESTART_BACK() do { __CPROVER_assert(XV_INV_RESTART, "LOOPSTEP:RESTART"); __CPROVER_assume(0); } while (0)
+    tail_stamp = nondet_size(); q_tail_max = nondet_size(); q_tail_reads = nondet_uint(); __CPROVER_assume(q_tail_reads < 0x7fffffffu); \
+    __CPROVER_assume(XV_INV_RESTART); del_count = 0; in_tail = tail_stamp; } } while (0)
+#define XV_RESTART_BACK() do { __CPROVER_assert(XV_INV_RESTART, "LOOPSTEP:RESTART"); XV_CANARY("global.restart_taken"); \
+    XV_OBL("stamp.global.restart_progress", del_count >= 1); /* a pass that restarts has deleted a node: at most (#nodes) restarts */ \
+    __CPROVER_assume(0); } while (0)
 
 
 #include "lowered.h"
@@ -129,22 +132,27 @@ extern unsigned g_n[3]; extern _Bool restart_seen;
 #ifndef NN
 #define NN 6
 #endif
-struct node pool[NN];
+/* six separate objects, not an array: cbmc keeps pointer offsets exact per object, so interior pointers (struct node**) stay cheap */
+struct node xv_n0, xv_n1, xv_n2, xv_n3, xv_n4, xv_n5;
+static struct node* ND(unsigned i) { return i == 0 ? &xv_n0 : i == 1 ? &xv_n1 : i == 2 ? &xv_n2 : i == 3 ? &xv_n3 : i == 4 ? &xv_n4 : &xv_n5; }
 static void reset_ghost(void) {
   xv_clock = 1; xv_threw = 0;
   q_push_n = q_remove_n = q_acq_n = q_head_reads = q_tail_reads = q_steal_n = q_add_n = 0; q_tail_max = 0; q_add_bad = 0; q_add_first = q_add_last = 0;
-  q_push_block = q_remove_block = 0; q_push_re = q_remove_re = 0; q_push_clk = 0; q_global_head = 0; del_bad_stamp = 0; del_poison = 0;
-  poison.next = &poison; poison.next_chunk = &poison; poison.stamp = nondet_size(); poison.deleted = 0;
+  q_push_block = q_remove_block = 0; q_push_re = q_remove_re = 0; q_push_clk = 0; q_global_head = 0; del_bad_stamp = 0; del_poison = 0; del_count = 0; del_at_restart = 0;
+  poison.next = 0; poison.next_chunk = 0; poison.stamp = nondet_size(); poison.deleted = 0;
   st_local_n = st_global_n = 0; td_enter_n = td_leave_n = td_add_n = 0; td_leave_bad = 0; td_enter_clk = 0; td_add_node = 0;
   ld_n = 0; ld_re = 0; ld_clk = 0; ld_val = 0; mon_p = 0;
-  in_was_last = nondet_bool(); in_local_left = nondet_size(); in_local_first = nondet_bool() ? &pool[0] : 0;
+  in_was_last = nondet_bool(); in_local_left = nondet_size(); in_local_first = nondet_bool() ? ND(0) : 0;
 }
+static void record_stamps(void);
 static void havoc_td(void) {
   xv_td.control_block = nondet_uptr(); xv_td.region_entries = nondet_uint(); xv_td.number_of_retired_nodes = nondet_size();
-  xv_td.first_retired_node = nondet_bool() ? &pool[NN - 1] : junk(); xv_td.prev_retired_node = nondet_bool() ? &pool[NN - 1].next : &xv_td.first_retired_node;
-  for (int i = 0; i < NN; ++i) { pool[i].next = junk(); pool[i].next_chunk = junk(); pool[i].stamp = nondet_size(); pool[i].deleted = 0; }
+  xv_td.first_retired_node = nondet_bool() ? ND(NN - 1) : junk(); xv_td.prev_retired_node = nondet_bool() ? &ND(NN - 1)->next : &xv_td.first_retired_node;
+  for (int i = 0; i < NN; ++i) { ND(i)->next = junk(); ND(i)->next_chunk = junk(); ND(i)->stamp = nondet_size(); ND(i)->deleted = 0; }
   reset_ghost();
 }
+
+static void record_stamps(void) { in_s0 = ND(0)->stamp; in_s1 = ND(1)->stamp; in_s2 = ND(2)->stamp; in_s3 = ND(3)->stamp; in_s4 = ND(4)->stamp; in_s5 = ND(5)->stamp; }
 
 /* ================= enter_region / leave_region ================= */
 void h_enter(void) {
@@ -195,10 +203,10 @@ void h_leave(void) {
 }
 
 /* ================= add_retired_node ================= */
-/* the local list is abstract: its first node F and its last node T (pool[0]); P (pool[1]) is the node being retired */
+/* the local list is abstract: its first node F and its last node T (node 0); P (node 1) is the node being retired */
 void h_add_retired(void) {
   havoc_td();
-  struct node* T = &pool[0]; struct node* P = &pool[1];
+  struct node* T = ND(0); struct node* P = ND(1);
   _Bool empty = nondet_bool(); size_t nr = xv_td.number_of_retired_nodes;
   XV_ASSUME(nr < (size_t)-1 && (nr == 0) == empty);
   struct node* F = xv_td.first_retired_node;
@@ -233,27 +241,27 @@ static unsigned reach_list(struct node* first, struct node* target, unsigned bou
 void h_local(void) {
   havoc_td();
   in_len = nondet_uint(); in_j = nondet_uint(); XV_ASSUME(in_len <= LL && in_j < NN);
-  for (unsigned i = 0; i < LL; ++i) if (i < in_len) pool[i].next = (i + 1 < in_len) ? &pool[i + 1] : 0;
-  xv_td.first_retired_node = in_len ? &pool[0] : 0;
-  xv_td.prev_retired_node = in_len ? &pool[in_len - 1].next : &xv_td.first_retired_node;
+  for (unsigned i = 0; i < LL; ++i) if (i < in_len) ND(i)->next = (i + 1 < in_len) ? ND(i + 1) : 0;
+  xv_td.first_retired_node = in_len ? ND(0) : 0;
+  xv_td.prev_retired_node = in_len ? &ND(in_len - 1)->next : &xv_td.first_retired_node;
   xv_td.number_of_retired_nodes = in_len;
-  struct node j0 = pool[in_j]; unsigned re = xv_td.region_entries;
+  struct node j0 = (*ND(in_j)); unsigned re = xv_td.region_entries; record_stamps();
   sg_process_local_nodes(&xv_td);
-  unsigned ndel = 0; for (unsigned i = 0; i < NN; ++i) ndel += pool[i].deleted;
-  unsigned r = reach_list(xv_td.first_retired_node, &pool[in_j], LL + 1);
+  unsigned ndel = 0; for (unsigned i = 0; i < NN; ++i) ndel += ND(i)->deleted;
+  unsigned r = reach_list(xv_td.first_retired_node, ND(in_j), LL + 1);
   XV_OBL("stamp.free.below_tail", !del_bad_stamp && !del_poison && q_tail_reads == 1);
   XV_OBL("stamp.conserve", !reach_poison);                                        /* no freed node is left in the list */
   if (in_j < in_len) {
-    XV_OBL("stamp.conserve", pool[in_j].deleted + r == 1);                       /* deleted once or kept once */
-    if (pool[in_j].deleted) XV_OBL("stamp.free.below_tail", j0.stamp <= q_tail_max);
-    else XV_OBL("stamp.conserve", pool[in_j].stamp == j0.stamp && pool[in_j].next == j0.next);
-    if (pool[in_j].deleted) XV_CANARY("local.deleted"); else XV_CANARY("local.kept");
+    XV_OBL("stamp.conserve", ND(in_j)->deleted + r == 1);                       /* deleted once or kept once */
+    if (ND(in_j)->deleted) XV_OBL("stamp.free.below_tail", j0.stamp <= q_tail_max);
+    else XV_OBL("stamp.conserve", ND(in_j)->stamp == j0.stamp && ND(in_j)->next == j0.next);
+    if (ND(in_j)->deleted) XV_CANARY("local.deleted"); else XV_CANARY("local.kept");
   } else {
-    XV_OBL("stamp.conserve", pool[in_j].deleted == 0 && r == 0 && pool[in_j].stamp == j0.stamp && pool[in_j].next == j0.next && pool[in_j].next_chunk == j0.next_chunk);
+    XV_OBL("stamp.conserve", ND(in_j)->deleted == 0 && r == 0 && ND(in_j)->stamp == j0.stamp && ND(in_j)->next == j0.next && ND(in_j)->next_chunk == j0.next_chunk);
   }
   XV_OBL("stamp.conserve", xv_td.number_of_retired_nodes == in_len - ndel);
-  XV_OBL("stamp.conserve", xv_td.first_retired_node == (ndel < in_len ? &pool[ndel] : 0));
-  XV_OBL("stamp.conserve", xv_td.prev_retired_node == (ndel < in_len ? &pool[in_len - 1].next : &xv_td.first_retired_node) && *xv_td.prev_retired_node == 0);
+  XV_OBL("stamp.conserve", xv_td.first_retired_node == (ndel < in_len ? ND(ndel) : 0));
+  XV_OBL("stamp.conserve", xv_td.prev_retired_node == (ndel < in_len ? &ND(in_len - 1)->next : &xv_td.first_retired_node) && *xv_td.prev_retired_node == 0);
   XV_OBL("stamp.region.balanced", xv_td.region_entries == re && q_push_n == 0 && q_remove_n == 0 && q_add_n == 0 && q_steal_n == 0);
   if (in_len == LL && ndel == LL) XV_CANARY("local.all_deleted");
   if (in_len == 0) XV_CANARY("local.empty");
@@ -261,17 +269,22 @@ void h_local(void) {
 }
 
 /* ================= process_global_nodes ================= */
-/* Shape: a chain of up to 3 chunks (linked by next_chunk) of up to 2 nodes each (linked by next); chunk c lives in pool[2c], pool[2c+1]
+/* Shape: a chain of up to 3 chunks (linked by next_chunk) of up to 2 nodes each (linked by next); chunk c lives in (*ND(2c)), (*ND(2c+1))
  * (node identity is irrelevant to the code: it never compares or indexes nodes).  The goto-restart loop is cut at the label by the
  * unit-local hooks XV_RESTART_ENTRY / XV_RESTART_BACK (post_subst in unit.py) exactly like Route X cuts a while loop:
  * first arrival: assert INV, havoc, assume INV;  back edge: assert INV, stop. */
+#ifndef G_MAX0
+#define G_MAX0 2
+#define G_MAX1 2
+#define G_MAX2 2
+#endif
 unsigned g_n[3]; _Bool j_used; struct node j0; _Bool restart_seen;
 static struct node* build_chain(void) {
   struct node* head = 0; struct node** link = &head;
   for (unsigned c = 0; c < 3; ++c) {
     if (g_n[c] == 0) continue;
-    pool[2 * c].next = g_n[c] > 1 ? &pool[2 * c + 1] : 0; if (g_n[c] > 1) pool[2 * c + 1].next = 0;
-    *link = &pool[2 * c]; link = &pool[2 * c].next_chunk;
+    ND(2 * c)->next = g_n[c] > 1 ? ND(2 * c + 1) : 0; if (g_n[c] > 1) ND(2 * c + 1)->next = 0;
+    *link = ND(2 * c); link = &ND(2 * c)->next_chunk;
   }
   *link = 0;
   return head;
@@ -292,29 +305,30 @@ static unsigned chain_reach(struct node* head, struct node* last, struct node* t
   return r;
 }
 static _Bool j_conserved(struct node* head, struct node* last) {
-  unsigned r = chain_reach(head, last, &pool[in_j]);
+  unsigned r = chain_reach(head, last, ND(in_j));
   if (!walk_ok) return 0;
-  if (j_used) return pool[in_j].deleted + r == 1 && (pool[in_j].deleted || pool[in_j].stamp == j0.stamp);
-  return pool[in_j].deleted == 0 && r == 0 && pool[in_j].stamp == j0.stamp && pool[in_j].next == j0.next && pool[in_j].next_chunk == j0.next_chunk;
+  if (j_used) return ND(in_j)->deleted + r == 1 && (ND(in_j)->deleted || ND(in_j)->stamp == j0.stamp);
+  return ND(in_j)->deleted == 0 && r == 0 && ND(in_j)->stamp == j0.stamp && ND(in_j)->next == j0.next && ND(in_j)->next_chunk == j0.next_chunk;
 }
 static _Bool td_list_empty(void) { return xv_td.first_retired_node == 0 && xv_td.prev_retired_node == &xv_td.first_retired_node; }
 static void havoc_heap(void) {
-  for (int i = 0; i < NN; ++i) { pool[i].next = junk(); pool[i].next_chunk = junk(); pool[i].stamp = nondet_size(); pool[i].deleted = 0; }
+  for (int i = 0; i < NN; ++i) { ND(i)->next = junk(); ND(i)->next_chunk = junk(); ND(i)->stamp = nondet_size(); ND(i)->deleted = 0; }
   g_n[0] = nondet_uint(); g_n[1] = nondet_uint(); g_n[2] = nondet_uint(); in_j = nondet_uint();
-  XV_ASSUME(g_n[0] <= 2 && g_n[1] <= 2 && g_n[2] <= 2 && in_j < 6);
+  XV_ASSUME(g_n[0] <= G_MAX0 && g_n[1] <= G_MAX1 && g_n[2] <= G_MAX2 && in_j < 6);
+  in_g0 = g_n[0]; in_g1 = g_n[1]; in_g2 = g_n[2]; record_stamps();
 }
 static void pick_j(void) {
-  if (j_in_chain()) j_used = 1; else { j_used = nondet_bool(); pool[in_j].deleted = j_used ? 1 : 0; }
-  j0 = pool[in_j];
+  if (j_in_chain()) j_used = 1; else { j_used = nondet_bool(); ND(in_j)->deleted = j_used ? 1 : 0; }
+  j0 = (*ND(in_j));
 }
 void h_global(void) {
   havoc_td(); havoc_heap();
   /* chunk 0 is the thread's local list, chunks 1 and 2 are what steal_global_retired_nodes() returns */
   unsigned nl = g_n[0]; g_n[0] = 0; q_global_head = build_chain(); g_n[0] = nl;
-  xv_td.first_retired_node = nl ? &pool[0] : 0; if (nl) { pool[0].next = nl > 1 ? &pool[1] : 0; if (nl > 1) pool[1].next = 0; }
-  xv_td.prev_retired_node = nl ? &pool[nl - 1].next : &xv_td.first_retired_node;
+  xv_td.first_retired_node = nl ? ND(0) : 0; if (nl) { ND(0)->next = nl > 1 ? ND(1) : 0; if (nl > 1) ND(1)->next = 0; }
+  xv_td.prev_retired_node = nl ? &ND(nl - 1)->next : &xv_td.first_retired_node;
   xv_td.number_of_retired_nodes = nl;
-  j_used = j_in_chain(); j0 = pool[in_j]; restart_seen = 0;
+  j_used = j_in_chain(); j0 = (*ND(in_j)); restart_seen = 0;
   unsigned re = xv_td.region_entries; _Bool nothing = (g_n[0] + g_n[1] + g_n[2] == 0);
   sg_process_global_nodes(&xv_td);
   XV_OBL("stamp.free.below_tail", !del_bad_stamp && !del_poison);
@@ -324,8 +338,8 @@ void h_global(void) {
   XV_OBL("stamp.region.balanced", xv_td.region_entries == re && q_push_n == 0 && q_remove_n == 0);
   if (!restart_seen) { XV_OBL("stamp.conserve", nothing && q_add_n == 0 && q_tail_reads == 1); XV_CANARY("global.nothing"); }
   else {
-    if (j_used && pool[in_j].deleted) XV_CANARY("global.deleted");
-    if (j_used && !pool[in_j].deleted) XV_CANARY("global.kept");
+    if (j_used && ND(in_j)->deleted) XV_CANARY("global.deleted");
+    if (j_used && !ND(in_j)->deleted) XV_CANARY("global.kept");
     if (q_add_n && walk_chunks == 3) XV_CANARY("global.three_chunks_back");
     if (q_add_n == 0) XV_CANARY("global.all_deleted");
   }
